@@ -682,9 +682,9 @@ class FileCache:
         Return size on disk of the cache in bytes.
         :return: cache size in bytes.
         """
-        return _get_total_size_of_files_in_bytes(
-            list(self._entries.values()), self.path
-        )
+        # the entries hold complete file paths already: joining the cache path
+        # in front of them again only works when that path is absolute.
+        return _get_total_size_of_files_in_bytes(list(self._entries.values()))
 
     def purge(self) -> None:
         """
